@@ -1852,6 +1852,37 @@ var rStackWhole = &Rule{
 			}
 		})
 		c.Check(n >= 1, "(*withstack.withStack).SafeDetails: printed stack present", sd.Pos(), "a StackTrace is formatted", "SafeDetails no longer prints a stack trace")
+		// the adapters for the stack-carrying types of github.com/pkg/errors send the printed stack the same way: the
+		// value printed is what the error's StackTrace() returns, not a part of it
+		nAd := 0
+		for _, name := range []string{"encodePkgWithStack", "encodePkgFundamental"} {
+			fn := p.Func("errbase", name)
+			if fn == nil {
+				continue
+			}
+			regionOf(fn).each(func(in ssa.Instruction) {
+				call, ok := in.(*ssa.Call)
+				if !ok {
+					return
+				}
+				f := sx.Callee(call)
+				if f == nil || f.Name() != "Sprintf" || len(call.Call.Args) != 2 {
+					return
+				}
+				for _, a := range varargs(call.Call.Args[1]) {
+					v := stripIface(a)
+					if !strings.Contains(v.Type().String(), "StackTrace") {
+						continue
+					}
+					nAd++
+					st, isCall := v.(*ssa.Call)
+					whole := isCall && st.Call.IsInvoke() && st.Call.Method.Name() == "StackTrace"
+					c.Check(whole, "errbase."+name+": printed stack", call.Pos(), "the error's whole StackTrace()",
+						"the stack printed into the safe details of a github.com/pkg/errors stack layer is not what its StackTrace() returns ("+describeVal(v)+"): frames are dropped or altered in the form that travels, so the layer's reportable frames differ before and after a hop")
+				}
+			})
+		}
+		c.Min("printed stacks in the pkg/errors adapters", nAd, 2)
 	},
 }
 
